@@ -16,6 +16,7 @@ type schemaSpec struct {
 	types   []typeSpec
 	wrapped map[string]bool
 	literal bool // the Types slice is written directly, in the listed order, instead of through AddType
+	derived bool // soft types are copies of a differently named base type that has already been used (New) once
 }
 
 func (s schemaSpec) build() *jsonapi.Schema {
@@ -31,10 +32,20 @@ func (s schemaSpec) build() *jsonapi.Schema {
 			} else {
 				_ = sc.AddType(typ)
 			}
-		} else if s.literal {
-			sc.Types = append(sc.Types, t.softType())
 		} else {
-			_ = sc.AddType(t.softType())
+			st := t.softType()
+			if s.derived {
+				base := st
+				base.Name = "base-of-" + t.name
+				_ = base.New()
+				st = base.Copy()
+				st.Name = t.name
+			}
+			if s.literal {
+				sc.Types = append(sc.Types, st)
+			} else {
+				_ = sc.AddType(st)
+			}
 		}
 	}
 	return sc
@@ -55,7 +66,7 @@ func (s schemaSpec) gallina() string {
 // (relationships carry the type's name) or added as a soft type.
 func (s schemaSpec) gTypeIn(t typeSpec) string {
 	if s.wrapped[t.name] {
-		t.noFrom = false
+		t.noFrom, t.fromOther = false, false
 	}
 	return t.gType()
 }
@@ -405,6 +416,7 @@ func runC01(c *ctx) {
 			sc.literal = true
 			sc.types = []typeSpec{t, other}
 		}
+		sc.derived = c.r.chance(1, 3)
 		if t.name != "alltypes" && c.r.chance(1, 3) {
 			// another type whose name differs only in case, listed first
 			decoy := typeSpec{name: strings.ToUpper(t.name), fields: []fieldSpec{{name: "decoy", code: 1}}}
@@ -414,6 +426,33 @@ func runC01(c *ctx) {
 			}
 		}
 		c01Case(c, sc, t.name, wrapped, c01Ops(c.r, t, c.r.bool()), pick(c.r, []string{"", "/", "http://h", "http://h/p/"}), "random")
+	}
+	// several relationships of either cardinality, some empty: what one relationship decodes must
+	// not leak into another (repeated: the payload's relationships are walked in map order)
+	{
+		links := typeSpec{name: "links4", fields: []fieldSpec{{name: "title", code: 1},
+			{rel: true, name: "author", toOne: true, target: "other"}, {rel: true, name: "editor", toOne: true, target: "other"},
+			{rel: true, name: "owner", toOne: true, target: "other"}, {rel: true, name: "reviewer", toOne: true, target: "other"},
+			{rel: true, name: "tags", target: "other"}, {rel: true, name: "cats", target: "other"}, {rel: true, name: "refs", target: "other"}}}
+		for _, wrapped := range []bool{false, true} {
+			sc := schemaSpec{types: []typeSpec{links, other}, wrapped: map[string]bool{"links4": wrapped}}
+			for mask := 1; mask < 15; mask += 2 {
+				ops := []setOp{{"id", "b1"}, {"title", "t"}}
+				for i, rn := range []string{"author", "editor", "owner", "reviewer"} {
+					if mask&(1<<i) != 0 {
+						ops = append(ops, setOp{rn, fmt.Sprint("p", i)})
+					}
+				}
+				for i, rn := range []string{"tags", "cats", "refs"} {
+					if (mask+i)%2 == 0 {
+						ops = append(ops, setOp{rn, []string{fmt.Sprint("t", i), "t9"}})
+					}
+				}
+				for k := 0; k < 3; k++ {
+					c01Case(c, sc, "links4", wrapped, ops, "/p", "several-relationships")
+				}
+			}
+		}
 	}
 	// the collection route, members of two types, soft and struct-backed mixed
 	for i := 0; i < n/6; i++ {
